@@ -79,9 +79,15 @@ def merge_shard_infos(updates: list[ShardListInfo], dataset_root: Path,
 
     # Move children of root_shard_list into deeper_updates to let recursion
     # merge everything.
+    # A child which is itself being updated is superseded by its update (the
+    # update describes the newer version of the same file).
+    updated_paths: set[Path] = {
+        update.shard_list_info_file.file_path for update in updates
+    }
     for child in root_shard_list.children_shard_lists:
         root_shard_list.number_of_examples -= child.number_of_examples
-        deeper_updates.append(child)
+        if child.shard_list_info_file.file_path not in updated_paths:
+            deeper_updates.append(child)
     root_shard_list.children_shard_lists = []
 
     # Recursively update children with one longer common prefix.
